@@ -491,4 +491,7 @@ func main() {
 
 	w.WriteString("end Gv.Gen\n")
 	writeIfChanged(filepath.Join(out, "Tables.lean"), w.String())
+
+	// T3: structural concurrency facts (facts.go)
+	emitFacts(repo, out)
 }
